@@ -75,6 +75,30 @@ let handle (line : string) : string =
                  let item = fmt_ret r ^ " " ^ fmt_state out ^ " ; " ^ fmt_ret rf ^ " " ^ fmt_state outf ^ " ; " ^ fmt_state gs in
                  go out (w :: hist) rest (item :: acc) in
            String.concat " | " (go st0 hist0 ws []))
+  | "C" :: kd :: toks ->
+      (* derivation tree: ( [B] [^] item* )   item = hex id | tree *)
+      (match (if kd = "P" || kd = "R" then !tp else !tt) with
+       | LoadError _ -> "not-loaded"
+       | Loaded t ->
+           let tl = alookup t in
+           let n = nat_of_int !order in
+           let rec parse_tree toks = match toks with
+             | "(" :: rest ->
+                 let (bos, rest) = (match rest with "B" :: r -> (true, r) | r -> (false, r)) in
+                 let (fast, rest) = (match rest with "^" :: r -> (true, r) | r -> (false, r)) in
+                 let rec items toks acc = match toks with
+                   | ")" :: r -> (List.rev acc, r)
+                   | "(" :: _ -> let (t, r) = parse_tree toks in items r (Sub t :: acc)
+                   | w :: r -> items r (Term (n_of_hex w) :: acc)
+                   | [] -> failwith "unbalanced" in
+                 let (its, r) = items rest [] in (Rule (bos, fast, its), r)
+             | _ -> failwith "expected (" in
+           let (tree, _) = parse_tree toks in
+           let bos_st = (match tl [!bos_id] with
+                | Some e -> { s_words = [!bos_id]; s_bo = [(e.e_bo, e.e_ext)] }
+                | None -> { s_words = [!bos_id]; s_bo = [(Z0, false)] }) in
+           let (c, p) = eval_tree n tl (kd = "R") bos_st tree in
+           Printf.sprintf "%s %d %d %s" (hex_of_z p) (List.length c.c_left.l_ptrs) (if c.c_left.l_full then 1 else 0) (fmt_state c.c_right))
   | "SPEC" :: bos :: ws ->
       let n = nat_of_int !order in
       let hist0 = if bos = "1" then [!bos_id] else [] in
